@@ -5,6 +5,7 @@ import (
 	"errors"
 	"fmt"
 	"math/rand/v2"
+	"strings"
 	"sync"
 	"sync/atomic"
 	"time"
@@ -107,6 +108,116 @@ func runC10(r *kit.Run) {
 		c.Hook = []string{"launched: service finishes before Start's deferred stores", "checked: service finishes between a late Start's finished-check and its latch"}[i%2]
 		c10Run(r, 1_000_000+i, c, rng)
 	}
+	nr := int64(r.Scale(48, 6000))
+	for i := int64(0); i < nr && !r.Stopped(); i++ {
+		if !r.Mine(1_500_000 + i) {
+			continue
+		}
+		c10StartRace(r, i, r.Rng("startrace", i))
+	}
+}
+
+// c10StartRace: many fresh services; observers keep calling Wait from
+// before Start is invoked until Wait stops answering "not started". Run
+// blocks until its context ends and nobody ends it before the stamp taken
+// just before Close: an observer whose Wait returned something else than
+// ErrServiceNotStarted before that stamp returned while Run was still
+// running.
+func c10StartRace(r *kit.Run, idx int64, rng *rand.Rand) {
+	observers := 2 + rng.IntN(5)
+	procs := []int{2, 4, 16, 16}[rng.IntN(4)]
+	trials := 400
+	withShutdown := rng.IntN(2) == 0
+	desc := map[string]any{"mode": "start-race", "observers_calling_Wait_from_before_Start": observers, "fresh_services": trials, "shutdown_configured": withShutdown, "gomaxprocs": procs}
+	r.EvalN(int64(trials))
+	r.Current(1_500_000+idx, fmt.Sprintf("%v", desc))
+	problem, inconclusive := "", ""
+	var early atomic.Int64
+	kit.WithProcs(procs, func() {
+		for t := 0; t < trials && problem == "" && inconclusive == ""; t++ {
+			var runEnd atomic.Int64
+			s := &srv.Service{Name: "c10race", Run: func(ctx context.Context) error {
+				<-ctx.Done()
+				runEnd.Store(kit.Stamp())
+				return nil
+			}}
+			if withShutdown {
+				s.Shutdown = func() error { return nil }
+			}
+			type obs struct {
+				res error
+				ret int64
+			}
+			got := make([]obs, observers)
+			var wg sync.WaitGroup
+			var stop atomic.Bool
+			bar := kit.NewSpinBarrier(observers + 1)
+			for k := 0; k < observers; k++ {
+				wg.Add(1)
+				go func(k int) {
+					defer wg.Done()
+					bar.Wait()
+					for {
+						res := s.Wait()
+						ret := kit.Stamp()
+						if errors.Is(res, srv.ErrServiceNotStarted) && !stop.Load() {
+							continue
+						}
+						got[k] = obs{res, ret}
+						return
+					}
+				}(k)
+			}
+			bar.Wait()
+			kit.Yields(rng.IntN(3))
+			if err := s.Start(context.Background()); err != nil {
+				problem = fmt.Sprintf("trial %d: the only Start call returned %v", t, err)
+			}
+			kit.Yields(rng.IntN(4))
+			closeStamp := kit.Stamp() // the service context is live up to here
+			s.Close()
+			d := make(chan struct{})
+			go func() { wg.Wait(); close(d) }()
+			if met, q, cs := kit.Await(c10Watchdog/4, c10Watchdog, func() bool { return isClosed(d) }); !met {
+				if q {
+					problem = fmt.Sprintf("trial %d: Wait callers are still blocked after Close; at quiescence: %v", t, cs.Describe())
+				} else {
+					inconclusive = "observers did not return, not quiescent"
+				}
+				stop.Store(true)
+				return
+			}
+			stop.Store(true)
+			for k, o := range got {
+				if errors.Is(o.res, srv.ErrServiceNotStarted) {
+					continue
+				}
+				if o.ret < closeStamp && problem == "" {
+					problem = fmt.Sprintf("trial %d: observer %d's Wait returned %v at stamp %d while the service was running: Close was called after stamp %d and Run ended at %d", t, k, o.res, o.ret, closeStamp, runEnd.Load())
+				}
+				if o.ret > closeStamp {
+					early.Add(1)
+				}
+			}
+		}
+	})
+	if inconclusive != "" {
+		r.Inconclusive("C10 start race: " + inconclusive)
+		return
+	}
+	if problem != "" {
+		sig := "wait-returned-early"
+		if strings.Contains(problem, "still blocked") {
+			sig = "wait-never-returns"
+		} else if strings.Contains(problem, "only Start call") {
+			sig = "start-result"
+		}
+		r.Violation("C10/"+sig, 1_500_000+idx, desc, problem, nil)
+		return
+	}
+	r.Count("start_race_services", int64(trials))
+	r.Count("start_race_waits_that_blocked_until_the_end", early.Load())
+	r.Distinct(fmt.Sprintf("start-race|o=%d|sd=%v|p=%d", observers, withShutdown, procs))
 }
 
 func c10Run(r *kit.Run, idx int64, c c10Case, rng *rand.Rand) {
